@@ -22,6 +22,8 @@ def _model(tag, n, hn, lens, profiles, mc_only=False, workers=2, heap="4g"):
 
 
 def models(tier):
+    if tier == "cross":
+        return [_model("N3-F", 3, "HomeF", [1, 2], [3]), _model("N2", 2, "Home2", [1, 2], [0])]
     if tier == "quick":
         return [_model("N3-A", 3, "HomeA", [1, 2, 3], [2]),
                 _model("N3-B", 3, "HomeB", [1, 3], [1]),
@@ -56,9 +58,9 @@ def _rand(rng, steps, n, nk):
 
 def randoms(tier, rng):
     out = []
-    caps = [(2, 4), (5, 8), (16, 20)] if tier == "quick" else [(2, 4), (3, 6), (5, 8), (8, 12), (16, 24), (64, 60)]
+    caps = [(2, 4), (5, 8), (16, 20)] if tier == "quick" else [(3, 5), (8, 10)] if tier == "cross" else [(2, 4), (3, 6), (5, 8), (8, 12), (16, 24), (64, 60)]
     for (n, nk) in caps:
-        steps = 1200 if tier == "quick" else 4000
+        steps = 1200 if tier == "quick" else 500 if tier == "cross" else 4000
         p = rng.randint(0, 5)
         out.append(dict(tag="n%d" % n, segs=[_rand(rng, steps, n, nk) for _ in range(2)],
                         trace_consts=dict(N=n, NKeys=nk, Lens={1}, D1=32, D2=66),
